@@ -27,6 +27,10 @@ mod matrix;
 mod ringbuffer;
 mod storage;
 
+#[cfg(pendulum_project_ntpd_rs_verif)]
+#[path = "/verif/hooks/statime_algo/mod.rs"]
+pub mod verif;
+
 use core::marker::PhantomData;
 use statime_base::{
     Clock, ClockError, ClockId, DirectedLinkId, Direction, Duration, LeapStatus, LinkId, TAI,
